@@ -6,6 +6,7 @@ import (
 	"net/http"
 	"strings"
 	"sync"
+	"syscall"
 	"time"
 
 	"golang.org/x/net/http2"
@@ -163,6 +164,25 @@ func worldC05(w *World) {
 		}
 		for i := range pauses {
 			pauses[i] = []time.Duration{time.Second, 3 * time.Second}[i%2]
+		}
+	}
+	// the agent may be told to shut down gracefully (SIGTERM with a two-minute grace
+	// period) while the response is being streamed: the stream must go on
+	graceful := !gce && !trickle && !h2aged && t.Rare(1, 6, "graceful")
+	if graceful {
+		if n > 6 {
+			n = 6
+			chunks, pauses = chunks[:n], pauses[:n]
+		}
+		total = 0
+		for i := range chunks {
+			if pauses[i] > time.Second {
+				pauses[i] = 10 * time.Millisecond
+			}
+			if chunks[i] > 4097 {
+				chunks[i] = 4097
+			}
+			total += chunks[i]
 		}
 	}
 	// the backend may take a while before it produces the first byte
@@ -343,6 +363,10 @@ func worldC05(w *World) {
 				deadline.Stop()
 				obs[i].visible = w.K.Now()
 				obs[i].ok = true
+				if graceful && i == 0 && n > 1 {
+					w.K.Signal("agenthost", syscall.SIGTERM)
+					w.Probe("shutdown_signal_while_streaming")
+				}
 			}
 			finished = true
 		})
@@ -354,6 +378,9 @@ func worldC05(w *World) {
 	})
 	// the agent's client timeout bounds the whole upload; a stream that is still
 	// being produced must not run into it, so it is configured out of the way
+	if graceful {
+		agentArgs = append(agentArgs, "-graceful-shutdown-timeout=2m")
+	}
 	if h2aged {
 		// (default --proxy-timeout of 60 s: the stream itself lasts well below it)
 		startAgent(w, append(agentArgs, "-force-http2")...)
